@@ -6,20 +6,25 @@ Import ListNotations.
 Open Scope float_scope.
 
 Record acase := mk_acase {
-  a_n : nat; a_A : list cvec; a_vs : list cvec; a_mi : nat; a_tol : float;
+  a_n : nat; a_A : list cvec; a_rfix : bool; a_cfix : bool; a_vs : list cvec; a_mi : nat; a_tol : float;
   a_out : list (list cvec * list cvec) }.      (* per batch element: columns of Q (max_iters+1), columns of H (max_iters, each max_iters+1 long) *)
 
 Definition subd (s : @ast cf cvec) (j : nat) : float := fst (Hent (fops 0) (aH s) (S j) j).     (* H[j+1, j] *)
 Definition hscale (s : @ast cf cvec) : float := fold_left (fun acc c => fmax acc (vmaxabs c)) (aH s) 0.
 
 (* stopping decisions at idx = 1 .. min(steps, cap-1): norm = H[idx, idx-1] against tol * H[1,0] *)
-Definition a_near_tie (tol : float) (cap steps : nat) (ss : list (@ast cf cvec)) : bool :=
+Definition a_near_tie (rfix : bool) (tol : float) (cap steps : nat) (ss : list (@ast cf cvec)) : bool :=
   existsb (fun s =>
     existsb (fun j =>
       let x := subd s (j - 1) in
-      let y := tol * subd s 0 in
+      let y := tol * fst (aref (fops 0) rfix s) in
       PrimFloat.abs (x - y) <? tie_tol * fmax (PrimFloat.abs x) (PrimFloat.abs y))
     (seq 1 (Nat.min steps (cap - 1)))) ss.
+(* repaired normalisation: the decision  norm > tol/2  of a step taken *)
+Definition a_clip_tie (cfix : bool) (tol : float) (steps : nat) (ss : list (@ast cf cvec)) : bool :=
+  cfix && existsb (fun s => existsb (fun j =>
+      let x := subd s j in let y := tol / 2 in
+      PrimFloat.abs (x - y) <? tie_tol * fmax (PrimFloat.abs x) (PrimFloat.abs y)) (seq 0 steps)) ss.
 (* a remainder below 1e-2 of the scale of H was normalised into a column that later steps used *)
 Definition a_amplified (steps : nat) (ss : list (@ast cf cvec)) : bool :=
   existsb (fun s => existsb (fun j => subd s j <? amp_tol * hscale s) (seq 0 (steps - 1))) ss.
@@ -54,11 +59,11 @@ Definition a_close (steps : nat) (s : @ast cf cvec) (q : list cvec * list cvec) 
 Definition acheck (c : acase) : nat :=
   let o := fops (a_n c) in
   let cap := Nat.min (a_mi c) (a_n c) in
-  let r := arnoldi_batch o (fmv (a_A c)) (a_n c) (a_vs c) (a_mi c) (a_tol c, 0) in
+  let r := arnoldi_batch o (fmv (a_A c)) (a_rfix c) (a_cfix c) (a_n c) (a_vs c) (a_mi c) (a_tol c, 0) in
   let steps := fst r in
   if a_amplified steps (snd r) || a_illcond steps (snd r) then 2%nat
   else if Nat.eqb (length (snd r)) (length (a_out c)) && forallb (fun p => a_close steps (fst p) (snd p)) (combine (snd r) (a_out c)) then 0%nat
-  else if a_near_tie (a_tol c) cap steps (snd r) then 1%nat
+  else if a_near_tie (a_rfix c) (a_tol c) cap steps (snd r) || a_clip_tie (a_cfix c) (a_tol c) steps (snd r) then 1%nat
   else 4%nat.
 
 Fixpoint acodes (k : nat) (cs : list acase) : list (nat * nat) :=
@@ -69,7 +74,7 @@ Fixpoint acodes (k : nat) (cs : list acase) : list (nat * nat) :=
 
 Definition adiff (c : acase) : float :=
   let o := fops (a_n c) in
-  let r := arnoldi_batch o (fmv (a_A c)) (a_n c) (a_vs c) (a_mi c) (a_tol c, 0) in
+  let r := arnoldi_batch o (fmv (a_A c)) (a_rfix c) (a_cfix c) (a_n c) (a_vs c) (a_mi c) (a_tol c, 0) in
   let steps := fst r in
   fold_left (fun acc p =>
     let s := fst p in let '(Q, H) := snd p in
@@ -80,4 +85,4 @@ Definition amaxdiff_agreeing (cs : list acase) : float :=
   fold_left (fun acc c => if Nat.eqb (acheck c) 0 then fmax acc (adiff c) else acc) cs 0.
 
 (* the case as seen by the repaired variant arnoldi_batch_capped (= arnoldi_batch with max_iters capped at n, C15_Model.v) *)
-Definition cap_case (c : acase) : acase := mk_acase (a_n c) (a_A c) (a_vs c) (Nat.min (a_mi c) (a_n c)) (a_tol c) (a_out c).
+Definition cap_case (c : acase) : acase := mk_acase (a_n c) (a_A c) (a_rfix c) (a_cfix c) (a_vs c) (Nat.min (a_mi c) (a_n c)) (a_tol c) (a_out c).
